@@ -145,6 +145,7 @@ type TV struct {
 	T    string
 	Typ  types.Type
 	Sort string
+	Cell bool // T is the address of a captured variable: the name denotes the variable's current value
 }
 
 func NewEnc(w *World, fn *ssa.Function, fc *FuncContract) *Enc {
@@ -584,6 +585,10 @@ func (e *Enc) encodeOnce() (err error) {
 	for _, fv := range fn.FreeVars {
 		e.bindParam(fv, fv.Name(), entry)
 		e.assume(fmt.Sprintf("(not (= %s null))", e.val[fv]))
+		if tv, ok := e.params[fv.Name()]; ok && tv.T == e.val[fv] {
+			tv.Cell = true
+			e.params[fv.Name()] = tv
+		}
 	}
 	// null is allocated (so fresh objects differ from it)
 	e.assume(fmt.Sprintf("(select %s null)", e.allocArr(entry)))
